@@ -84,6 +84,7 @@ type GenOpt struct {
 	Flat             bool // allow worlds of unrelated packages (C11)
 	NeedDepth2       bool // force a chain a <- b <- c (C06)
 	CleanChance      int  // out of 4: worlds without @ignore comments and exclude-checks (expectation oracles apply)
+	LongLines        bool // use statements get long leading block comments / trailing comments (C19 pipeline leg)
 }
 
 var dirShapes = []string{"%s", "x-y/%s", "v.1/%s", "deep/er/%s", "pkg%s", "in_ternal/%s.d"}
@@ -92,10 +93,30 @@ var junkPkgs = []string{"nosuch", "github.com/x/y-z.v2", "a/b/c", "util", "x.y/z
 
 // Generate draws a world. Draw 0 is always the simplest alternative.
 var ctorFnTaken map[int]map[string]bool
+var longLines bool
+
+// filler is comment text of n bytes with a few tabs and multi-byte runes.
+func filler(d drw, n int) string {
+	var b strings.Builder
+	for b.Len() < n {
+		switch d.Draw(12) {
+		case 0:
+			b.WriteByte('\t')
+		case 1:
+			b.WriteString("é")
+		case 2:
+			b.WriteString("世")
+		default:
+			b.WriteByte("abcdefghijklmnopqrstuvwxyz "[d.Draw(27)])
+		}
+	}
+	return b.String()
+}
 
 func Generate(t Drawer, opt GenOpt) (*World, *Meta) {
 	d := drw{t}
 	ctorFnTaken = map[int]map[string]bool{}
+	longLines = opt.LongLines
 	w := &World{Module: "ex.test/w"}
 	m := &Meta{}
 	n := d.rng(opt.MinPkgs, opt.MaxPkgs)
@@ -619,6 +640,17 @@ func renderUses(d drw, w *World, m *Meta, pd *PkgDecl, fileName string, nfuncs i
 					suffix := ""
 					if li == 0 && ig != "" {
 						suffix = " // @ignore " + ig
+					}
+					if longLines && li == 0 && ig == "" && d.chance(1, 3) {
+						switch d.Draw(3) {
+						case 0:
+							text = "/* " + filler(d, d.rng(150, 450)) + " */ " + text
+						case 1:
+							suffix = " // " + filler(d, d.rng(150, 450))
+						default:
+							text = "/* " + filler(d, d.rng(20, 260)) + " */ " + text
+							suffix = " // " + filler(d, d.rng(20, 400))
+						}
 					}
 					line := s.ln("\t%s%s", text, suffix)
 					if li == 0 || strings.Contains(l, "y.A") {
